@@ -147,12 +147,14 @@ package fees
 //@   let sinceS = (currTime / 1000 - be64(f.raw, 0)) % 18446744073709551616
 //@   let kk = ite(sinceS > 10, sinceS / 10, 1)
 //@   at call 5 assert since == sinceS
+//@   loop 1 summarize
 //@   loop 1 invariant since == sinceS
 //@   loop 1 invariant 0 <= i && i <= 5 && len(bytes) == 488 && be64(bytes, 0) == currTime / 1000 && wellFormed(f)
 //@   at call 6 assert nextUnitPrice == nextFromTotal(price(f.raw, i), total(winOf(f.raw, i), last(f.raw, i), since), targetUnits[i], unitPriceChangeDenom[i], minUnitPrice[i], ite(since > 10, since / 10, 1))
 //@   at call 6 assert forall s int :: 0 <= s && s < 10 ==> window.slot(nextUnitWindow, s) == upd(winOf(f.raw, i), last(f.raw, i), since, s)
 //@   at call 10 assert start == 8 + 96*i
 //@   at call 10 assert price(bytes, i) == nextUnitPrice
+//@   loop 1 assert len(bytes) == 488 && be64(bytes, 0) == pre(be64(bytes, 0))
 //@   loop 1 assert forall j int :: 0 <= j && j < 488 && (j < 8 + 96*i || j >= 8 + 96*i + 88) ==> bytes[j] == pre(bytes[j])
 //@   loop 1 assert forall d int :: 0 <= d && d < i ==> price(bytes, d) == pre(price(bytes, d))
 //@   loop 1 assert forall d int :: 0 <= d && d < i ==> last(bytes, d) == pre(last(bytes, d))
